@@ -499,6 +499,8 @@ class Exec:
                 self.oblige(st, 'guarantee[store %s]' % f, guard(self.mkctx(st), f, obj.t, newval),
                             'guarantee', lineno=getattr(tgt, 'lineno', None))
             st.setf(f, obj.t, newval)
+            if f in L.STORE_GHOST:
+                L.STORE_GHOST[f][1](st, obj.t, val)
             if kind == 'set' and f in WF.ROLE:
                 st.setf('$setowner', val.t, obj.t)
                 st.setf('$setrole', val.t, z3.IntVal(WF.ROLE[f]))
@@ -695,6 +697,8 @@ class Exec:
                 if isinstance(n.ctx, ast.Store):
                     f = ex.fieldname(n.attr)
                     fields.add(f)
+                    if f in L.STORE_GHOST:
+                        fields.add(L.STORE_GHOST[f][0])
                     if L.FIELD_KINDS.get(f) == 'set':
                         fields.update(['$setowner', '$setrole'])
                 self.generic_visit(n)
@@ -1110,7 +1114,77 @@ class Exec:
         return self.for_generator(s, st)
 
     def for_generator(self, s, st):
-        raise Unsupported('generator consumer with a non-trivial body (line %d)' % s.lineno)
+        """`for x in gen(...): body` for a generator of the package under contract.
+
+        Eager model: the generator's contract is applied as a whole, then the body is run once per yielded
+        element in yield order, as a set loop whose `visited` is exactly the set of elements yielded before
+        the current one.  What makes this equal to the real (lazy, interleaved) execution is checked or
+        over-approximated here:
+          * the body must leave the generator's read footprint unchanged (obligation generator-undisturbed);
+          * the fields the generator writes are havoced at the loop head on the yielded objects, so the
+            body never relies on the marks being in their final state, and an abandoned generator
+            (break, return or raise out of the body) needs no special case;
+          * if the generator raises, the body may have run for a prefix: its assigned names/fields are havoced.
+        The contract of the generator exports the yield set, the position function and these two hooks
+        (Contract.gen_export)."""
+        k, spec = self.loop_spec(s)
+        res = []
+        for st2, v in self.ev(s.iter, st, yield_from=True):
+            if isinstance(v, Raised):
+                self.havoc_for_loop(st2, s.body, spec)
+                res.append((st2, Out('raise', v.exc, v.cls)))
+                continue
+            info = st2.g.get('$gen-yields')
+            if info is None:
+                raise Unsupported('the generator contract exports no yield sequence (line %d)' % s.lineno)
+            S, pos = info['set'], info['pos']
+            loop_pre = st2.copy()
+            st2.g['$loop%d_pre' % k] = loop_pre
+            st2.g['$loop%d_iterset' % k] = S
+            names, fields = self.assigned_in(s.body, st2)
+            if spec.modifies:
+                fields = fields | set(spec.modifies)
+            info['forget'](st2)
+            kw0 = dict(loop_pre=loop_pre, iterset=S, visited=L.EMPTY)
+            self.check_inv(st2, spec, k, 'inv-establish', kw0, fields=fields, lineno=s.lineno)
+            h = st2.copy()
+            self.havoc_for_loop(h, s.body, spec)
+            info['forget'](h)
+            Vis = L.fresh('visited', L.SetV)
+            h.assume(L.subset(Vis, S))
+            kw = dict(loop_pre=loop_pre, iterset=S, visited=Vis)
+            head_ctx = self.assume_inv(h, spec, kw, fields)
+            h.assume(info['stable'](loop_pre, h, marks=False))
+            ex = h.copy()
+            ex.assume(L.seteq(Vis, S), Vis == S)
+            ex.trace.append('L%d:for-exit' % s.lineno)
+            res.append((ex, None))
+            it = h.copy()
+            x = L.fresh('it_' + (s.target.id if isinstance(s.target, ast.Name) else 'x'), L.Ref)
+            j = L.fresh('j', L.Ref)
+            it.assume(z3.Select(S, x), z3.Not(z3.Select(Vis, x)))
+            # yield order: what was visited before x is exactly what the generator yielded before x
+            it.assume(L.FA([j], z3.Select(Vis, j) == z3.And(z3.Select(S, j), pos(j) < pos(x)),
+                           patterns=[z3.Select(Vis, j)]))
+            it.trace.append('L%d:for-iter' % s.lineno)
+            self.covers.append(('%s/cover[loop%d-body]' % (self.c.qualname, k), list(it.pc)))
+            self.assign(s.target, vref(x), it)
+            before_body = it.copy()
+            self.loop_stack.append(dict(kind='set', k=k, visited=Vis, iterset=S, elem=x, sref=None))
+            body_outs = self.block(s.body, it)
+            self.loop_stack.pop()
+            for st3, out in body_outs:
+                if out is None or out.kind == 'cont':
+                    kw2 = dict(loop_pre=loop_pre, iterset=S, visited=z3.Store(Vis, x, True), elem=x)
+                    head_ctx.elem = x
+                    self.check_inv(st3, spec, k, 'inv-preserve', kw2, head_ctx, fields, lineno=s.lineno)
+                    self.oblige(st3, 'generator-undisturbed/loop%d' % k, info['stable'](before_body, st3),
+                                'inv-preserve', lineno=s.lineno)
+                elif out.kind == 'break':
+                    res.append((st3, None))
+                else:
+                    res.append((st3, out))
+        return res
 
     def for_tuple(self, s, st, itv):
         """python-level tuple of statically known length: unroll"""
